@@ -44,8 +44,9 @@ def prop(n: ast.expr, names: dict[str, str]) -> str:
             left = right
         return "(" + " ∧ ".join(parts) + ")"
     if isinstance(n, ast.BoolOp):
+        # the operands are pure comparisons: `and` / `or` commute, so their order in the source is irrelevant
         j = " ∧ " if isinstance(n.op, ast.And) else " ∨ "
-        return "(" + j.join(prop(v, names) for v in n.values) + ")"
+        return "(" + j.join(sorted(prop(v, names) for v in n.values)) + ")"
     if isinstance(n, ast.UnaryOp) and isinstance(n.op, ast.Not):
         return f"(¬ {prop(n.operand, names)})"
     raise Bad(f"cannot translate condition `{src}`")
@@ -86,17 +87,6 @@ def skeleton(fn: ast.FunctionDef, holes: dict[int, str]) -> str:
     cp.returns = None
     for a in cp.args.args + cp.args.kwonlyargs:
         a.annotation = None
-    # debug-logging and assertions on types are not part of the modelled behaviour
-    class Drop(ast.NodeTransformer):
-        def visit_Expr(self, node):  # noqa: N802
-            if isinstance(node.value, ast.Call) and ast.unparse(node.value.func).startswith("_logger."):
-                return None
-            return node
-
-        def visit_Assert(self, node):  # noqa: N802
-            return None
-
-    cp = Drop().visit(cp)
     ast.fix_missing_locations(cp)
     return "\n".join(line.rstrip() for line in ast.unparse(cp).splitlines())
 
@@ -111,6 +101,9 @@ def _bindings(fn: ast.FunctionDef) -> list[str]:
             seen.append(name)
 
     class V(ast.NodeVisitor):
+        def visit_Lambda(self, node):  # noqa: N802
+            self.visit(node.body)
+
         def visit_arg(self, node):  # noqa: N802
             add(node.arg)
 
@@ -134,10 +127,327 @@ def _rename(fn: ast.FunctionDef, mapping: dict[str, str]) -> ast.FunctionDef:
     return cp
 
 
+# ----------------------------------------------------------------------------- behaviour-preserving normal form
+# The recorded skeletons are in this normal form, and every method is brought into it before it is compared and
+# before the holes are located.  Each step preserves the behaviour of the method:
+#   * docstring, `assert`, `_logger.*` calls and annotations are dropped (not modelled);
+#   * lambda parameters are renamed `_lam0, _lam1, …`;
+#   * `not (A or B)` / `not (A and B)` are pushed inward (De Morgan), `not not A` is `A`;
+#   * `x = A if C else B` is written as `if C: x = A else: x = B`;
+#   * `if A: (if B: X)` without any `else` is `if A and B: X`;   `v = E; return v` at the end of a block is `return E`;
+#   * two consecutive `if`s on the same local variable `A` (`if not A: X` / `if A: Y else: Z`, `if A: X` / `if A: …`,
+#     `if A: X` / `if not A: Y`) are merged into one `if A: … else: …` when `X` does not assign `A`;
+#   * after `v = c[i]` (an element of a container), `c[i]` is written `v` in the following tests and in each branch up to
+#     the first statement that could change the container or `v`;
+#   * polarity: `if <negative test>: A else: B` becomes `if <positive test>: B else: A`, and
+#     `if <negative test>: A; R` with `A`, `R` both ending the function/iteration and `R` the single last statement becomes
+#     `if <positive test>: R; A`   (negative = `not X`, `!=`, `>=`, `>`, `is not`, `not in`);
+#   * runs of plain assignments are put into the lexicographically least order reachable by swapping ADJACENT
+#     INDEPENDENT statements (no write/read or write/write overlap; different attributes of possibly aliased objects
+#     are independent, the same attribute of two objects is not; anything that calls a non-pure function is a barrier).
+NEGATED = {ast.NotEq: ast.Eq, ast.GtE: ast.Lt, ast.Gt: ast.LtE, ast.IsNot: ast.Is, ast.NotIn: ast.In}
+PURE_CALLS = {
+    "max", "min", "len", "isinstance", "deepcopy", "round", "int", "sum", "any", "map", "filter", "enumerate", "next",
+    "slice", "timedelta", "Gap", "np.array", "divmod",
+    "self.normalize_timestamp", "self.to_internal_index", "self.get_timestamp", "self.wrap", "self.is_missing",
+    "self.has_value", "self.count_covered", "self.count_valid", "self._wrapped_buffer_window",
+    "self._to_covered_indices", "self._covered_time_range",
+    "self._buffer.count_covered", "self._buffer.count_valid", "self._buffer.get_timestamp",
+    "self._buffer.normalize_timestamp", "self._buffer.is_missing", "self._buffer.to_internal_index",
+}
+
+
+def _positive(test: ast.expr) -> ast.expr | None:
+    """The negation of a negative test, as a positive test; None when `test` is not negative."""
+    if isinstance(test, ast.UnaryOp) and isinstance(test.op, ast.Not):
+        return test.operand
+    if isinstance(test, ast.Compare) and len(test.ops) == 1 and type(test.ops[0]) in NEGATED:
+        return ast.Compare(left=test.left, ops=[NEGATED[type(test.ops[0])]()], comparators=test.comparators)
+    return None
+
+
+def _ends(stmts: list[ast.stmt]) -> bool:
+    return bool(stmts) and isinstance(stmts[-1], (ast.Return, ast.Raise, ast.Continue, ast.Break))
+
+
+def _paths(e: ast.AST) -> tuple[set[str], bool]:
+    """Access paths (dotted names) read by an expression, and whether it is free of non-pure calls."""
+    reads: set[str] = set()
+    pure = True
+
+    def walk(n: ast.AST) -> None:
+        nonlocal pure
+        if isinstance(n, (ast.Attribute, ast.Name)):
+            chain = n
+            while isinstance(chain, ast.Attribute):
+                chain = chain.value
+            if isinstance(chain, ast.Name):
+                reads.add(ast.unparse(n))
+                return
+        if isinstance(n, ast.Call):
+            f = ast.unparse(n.func)
+            if f not in PURE_CALLS and not f.startswith("_lam"):
+                pure = False
+            if f.startswith("self."):
+                reads.add("self")          # a method may read any attribute of `self`
+            for a in list(n.args) + [k.value for k in n.keywords]:
+                walk(a)
+            if isinstance(n.func, ast.Attribute) and not f.startswith("self."):
+                walk(n.func.value)
+            return
+        if isinstance(n, (ast.Await, ast.Yield, ast.YieldFrom, ast.NamedExpr)):
+            pure = False
+        for c in ast.iter_child_nodes(n):
+            walk(c)
+
+    walk(e)
+    return reads, pure
+
+
+def _effects(s: ast.stmt) -> tuple[set[str], set[str]] | None:
+    """(reads, writes) of a plain assignment; None = barrier."""
+    if not isinstance(s, ast.Assign):
+        return None
+    writes: set[str] = set()
+    reads, pure = _paths(s.value)
+    if not pure:
+        return None
+    for t in s.targets:
+        elts = t.elts if isinstance(t, ast.Tuple) else [t]
+        for e in elts:
+            if isinstance(e, ast.Name):
+                writes.add(e.id)
+            elif isinstance(e, ast.Attribute) and isinstance(e.value, ast.Name):
+                writes.add(ast.unparse(e))
+                reads.add(e.value.id)
+            else:
+                return None
+    return reads, writes
+
+
+def _overlap(p: str, q: str) -> bool:
+    a, b = p.split("."), q.split(".")
+    n = min(len(a), len(b))
+    if a[:n] == b[:n]:
+        return True                                   # same path, or one is part of the other
+    return len(a) > 1 and len(b) > 1 and a[0] != b[0] and a[-1] == b[-1]   # same attribute of maybe the same object
+
+
+def _independent(x: tuple[set[str], set[str]] | None, y: tuple[set[str], set[str]] | None) -> bool:
+    if x is None or y is None:
+        return False
+    (rx, wx), (ry, wy) = x, y
+    return not any(_overlap(p, q) for p in wx for q in ry | wy) and not any(_overlap(p, q) for p in wy for q in rx)
+
+
+def _normal_order(stmts: list[ast.stmt], key) -> list[ast.stmt]:
+    eff = [_effects(s) for s in stmts]
+    left = list(range(len(stmts)))
+    out: list[ast.stmt] = []
+    while left:
+        movable = [i for n, i in enumerate(left) if all(_independent(eff[j], eff[i]) for j in left[:n])]
+        best = min(movable, key=lambda i: (key(stmts[i]), i))
+        out.append(stmts[best])
+        left.remove(best)
+    return out
+
+
+
+def _stores(stmts: list[ast.stmt]) -> set[str]:
+    return {n.id for s in stmts for n in ast.walk(s) if isinstance(n, ast.Name) and isinstance(n.ctx, (ast.Store, ast.Del))}
+
+
+def _merge_ifs(stmts: list[ast.stmt]) -> list[ast.stmt]:
+    """Merge consecutive `if`s that test the same plain local variable (see the list of normal-form steps)."""
+    out: list[ast.stmt] = []
+    for s in stmts:
+        prev = out[-1] if out else None
+        if isinstance(prev, ast.If) and isinstance(s, ast.If) and not prev.orelse:
+            def var(t: ast.expr) -> tuple[str, bool] | None:
+                if isinstance(t, ast.Name):
+                    return t.id, True
+                if isinstance(t, ast.UnaryOp) and isinstance(t.op, ast.Not) and isinstance(t.operand, ast.Name):
+                    return t.operand.id, False
+                return None
+            a, b = var(prev.test), var(s.test)
+            if a and b and a[0] == b[0] and a[0] not in _stores(prev.body):
+                name = ast.Name(id=a[0], ctx=ast.Load())
+                x, y, z = prev.body, s.body, s.orelse
+                if a[1] == b[1]:            # if T: X ; if T: Y else: Z   ->  if T: X; Y  else: Z
+                    then, els = x + y, z
+                    pos = a[1]
+                else:                        # if T: X ; if ¬T: Y else: Z  ->  if T: X; Z  else: Y
+                    then, els = x + z, y
+                    pos = a[1]
+                if pos:
+                    merged = ast.If(test=name, body=then, orelse=els)
+                elif els:
+                    merged = ast.If(test=name, body=els, orelse=then)
+                else:
+                    merged = ast.If(test=ast.UnaryOp(op=ast.Not(), operand=name), body=then, orelse=[])
+                out[-1] = merged
+                continue
+        out.append(s)
+    return out
+
+
+def _alias_elements(stmts: list[ast.stmt]) -> None:
+    """After `v = c[i]`, write `v` for `c[i]` where that is certainly the same object (in place)."""
+
+    def simple(e: ast.AST) -> bool:
+        return all(isinstance(n, (ast.Name, ast.Attribute, ast.Subscript, ast.Constant, ast.BinOp, ast.Add, ast.Sub,
+                                  ast.Load, ast.Store)) for n in ast.walk(e))
+
+    class Sub(ast.NodeTransformer):
+        def __init__(self, text: str, v: str):
+            self.text, self.v = text, v
+
+        def visit_Subscript(self, node):  # noqa: N802
+            if isinstance(node.ctx, ast.Load) and ast.unparse(node) == self.text:
+                return ast.copy_location(ast.Name(id=self.v, ctx=ast.Load()), node)
+            return self.generic_visit(node)
+
+    def safe(s: ast.stmt, names: set[str]) -> bool:
+        """May `s` be passed without invalidating the alias?  (plain pure assignment not touching its names)"""
+        eff = _effects(s)
+        return eff is not None and not any(w.split(".")[0] in names for w in eff[1])
+
+    def rewrite(block_: list[ast.stmt], sub: Sub, names: set[str]) -> None:
+        for s in block_:
+            if isinstance(s, ast.If):
+                s.test = sub.visit(s.test)
+                rewrite(s.body, sub, names)
+                rewrite(s.orelse, sub, names)
+                if all(isinstance(x, ast.Assign) and safe(x, names) for x in s.body + s.orelse):
+                    continue
+                return                      # a branch may have changed the container
+            if isinstance(s, ast.Assign):
+                s.value = sub.visit(s.value)
+                s.targets = [sub.visit(t) if isinstance(t, ast.Attribute) else t for t in s.targets]
+                if not safe(s, names):
+                    return
+                continue
+            return
+
+    for i, s in enumerate(stmts):
+        if (isinstance(s, ast.Assign) and len(s.targets) == 1 and isinstance(s.targets[0], ast.Name)
+                and isinstance(s.value, ast.Subscript) and simple(s.value)):
+            names = {n.id for n in ast.walk(s.value) if isinstance(n, ast.Name)} | {s.targets[0].id}
+            names.discard("self")
+            rewrite(stmts[i + 1:], Sub(ast.unparse(s.value), s.targets[0].id), names)
+
+
+def normalize(fn: ast.FunctionDef) -> ast.FunctionDef:
+    import copy
+
+    fn = copy.deepcopy(fn)
+    fn.body = strip_doc(fn)
+    fn.decorator_list = []
+    fn.returns = None
+    for a in fn.args.args + fn.args.kwonlyargs:
+        a.annotation = None
+
+    class Drop(ast.NodeTransformer):
+        def visit_Expr(self, node):  # noqa: N802
+            if isinstance(node.value, ast.Call) and ast.unparse(node.value.func).startswith("_logger."):
+                return None
+            return node
+
+        def visit_Assert(self, node):  # noqa: N802
+            return None
+
+        def visit_AnnAssign(self, node):  # noqa: N802
+            if node.value is None:
+                return None
+            return ast.copy_location(ast.Assign(targets=[node.target], value=node.value), node)
+
+        def visit_UnaryOp(self, node):  # noqa: N802
+            self.generic_visit(node)
+            if isinstance(node.op, ast.Not):
+                inner = node.operand
+                if isinstance(inner, ast.UnaryOp) and isinstance(inner.op, ast.Not):
+                    return inner.operand
+                if isinstance(inner, ast.BoolOp):
+                    dual = ast.Or() if isinstance(inner.op, ast.And) else ast.And()
+                    return self.visit(ast.BoolOp(op=dual, values=[ast.UnaryOp(op=ast.Not(), operand=v) for v in inner.values]))
+            return node
+
+        def visit_Assign(self, node):  # noqa: N802
+            self.generic_visit(node)
+            if isinstance(node.value, ast.IfExp):
+                e = node.value
+                return ast.If(test=e.test, body=[ast.Assign(targets=node.targets, value=e.body)],
+                              orelse=[ast.Assign(targets=node.targets, value=e.orelse)])
+            return node
+
+        def visit_Lambda(self, node):  # noqa: N802
+            self.generic_visit(node)
+            ren = {a.arg: f"_lam{i}" for i, a in enumerate(node.args.args)}
+            for n in ast.walk(node):
+                if isinstance(n, ast.Name) and n.id in ren:
+                    n.id = ren[n.id]
+                elif isinstance(n, ast.arg) and n.arg in ren:
+                    n.arg = ren[n.arg]
+            return node
+
+    fn = ast.fix_missing_locations(Drop().visit(fn))
+    params = [a.arg for a in fn.args.args + fn.args.kwonlyargs if a.arg != "self"]
+    local = set(_bindings(fn)) - set(params)
+
+    def key(s: ast.stmt) -> str:
+        cp = copy.deepcopy(s)
+        for n in ast.walk(cp):
+            if isinstance(n, ast.Name):
+                if n.id in params:
+                    n.id = f"_p{params.index(n.id)}"
+                elif n.id in local:
+                    n.id = "_"
+        return ast.unparse(cp)
+
+    def block(stmts: list[ast.stmt]) -> list[ast.stmt]:
+        stmts = _merge_ifs(stmts)
+        _alias_elements(stmts)
+        out: list[ast.stmt] = []
+        i = 0
+        while i < len(stmts):
+            s = stmts[i]
+            for field in ("body", "orelse", "finalbody"):
+                if isinstance(getattr(s, field, None), list) and not isinstance(s, ast.FunctionDef):
+                    setattr(s, field, block(getattr(s, field)))
+            if isinstance(s, ast.If):
+                # `if A: (if B: X)` with no `else` anywhere  ==  `if A and B: X`
+                while (not s.orelse and len(s.body) == 1 and isinstance(s.body[0], ast.If) and not s.body[0].orelse):
+                    inner = s.body[0]
+                    parts = []
+                    for t in (s.test, inner.test):
+                        parts += t.values if isinstance(t, ast.BoolOp) and isinstance(t.op, ast.And) else [t]
+                    s.test, s.body = ast.BoolOp(op=ast.And(), values=parts), inner.body
+                pos = _positive(s.test)
+                if pos is not None and s.orelse:
+                    s.test, s.body, s.orelse = pos, s.orelse, s.body
+                elif (pos is not None and _ends(s.body) and i + 2 == len(stmts) and _ends([stmts[i + 1]])
+                      and not isinstance(stmts[i + 1], (ast.If, ast.For, ast.While, ast.With, ast.Try))):
+                    out.append(ast.If(test=pos, body=[stmts[i + 1]], orelse=[]))
+                    out.extend(s.body)
+                    break
+            out.append(s)
+            i += 1
+        # `v = E; return v`  ==  `return E`
+        if (len(out) >= 2 and isinstance(out[-1], ast.Return) and isinstance(out[-1].value, ast.Name)
+                and isinstance(out[-2], ast.Assign) and len(out[-2].targets) == 1
+                and isinstance(out[-2].targets[0], ast.Name) and out[-2].targets[0].id == out[-1].value.id):
+            out[-2:] = [ast.Return(value=out[-2].value)]
+        return _normal_order(out, key)
+
+    fn.body = block(fn.body)
+    ast.fix_missing_locations(fn)
+    return fn
+
+
 def find_method(tree: ast.Module, cls: str, name: str, like: list[str] | None = None) -> ast.FunctionDef:
-    """The implementation of `cls.name`.  With `like` (recorded skeletons): locals are renamed, by position of their
-    first binding, to the names used in the first skeleton with the same number of locals — a renamed local
-    variable then changes nothing for the extractor."""
+    """The implementation of `cls.name` in normal form (see above).  With `like` (recorded skeletons): locals are then
+    renamed, by position of their first binding, to the names used in the first skeleton with the same number of
+    locals — a renamed local variable or parameter changes nothing for the extractor."""
     fn = None
     for c in tree.body:
         if isinstance(c, ast.ClassDef) and c.name == cls:
@@ -147,6 +457,7 @@ def find_method(tree: ast.Module, cls: str, name: str, like: list[str] | None = 
                 fn = found[-1]
     if fn is None:
         raise Bad(f"{cls}.{name} not found")
+    fn = normalize(fn)
     cur = _bindings(fn)
     for sk in like or []:
         ref = _bindings(ast.parse(sk.strip("\n")).body[0])  # type: ignore[arg-type]
@@ -155,6 +466,7 @@ def find_method(tree: ast.Module, cls: str, name: str, like: list[str] | None = 
                 # two-step renaming so that a swap of two names cannot collide
                 tmp = {c_: f"__rb{i}" for i, c_ in enumerate(cur)}
                 fn = _rename(_rename(fn, tmp), {f"__rb{i}": r for i, r in enumerate(ref)})
+                fn = normalize(fn)   # (the order of independent statements does not depend on local names)
             break
     return fn
 
